@@ -325,6 +325,25 @@ KID_IDS = ["HA", "RS", "optional", "debug", "LB", "SAP", "K1", "NFV", "Rt"]
 PATH_VALUES = [".", "Packages", "a b/c", "UPPER/lower", "repo%20x", "x=y", "os/Packages", "Server/optional", "p:q", ""]
 IMAGE_NAMES = ["kernel", "Kernel", "initrd", "boot.iso", "UPGRADE", "a b", "kernel.img", "efiboot.img", "macboot.img"]
 CHECKSUM_PATHS = ["images/boot.iso", "repodata/repomd.xml", "UP/low", "images/pxeboot/vmlinuz", "Mixed/Case.img", "a b/c d"]
+# boundary values for every free-text field: all single-line without outer blanks, hence representable in the file syntax
+# (comment prefixes after a blank, delimiters, brackets, interpolation syntax, trailing backslash, inner tab / no-break space, long)
+BOUNDARY_VALUES = ["Fedora ;Server", "a #b", "a ; b", "a;b", "a ;", "; lead", "# lead", "x = y", "x: y", "[x]", "%(a)s", "%%", "100%",
+                   "trailing\\", "tab\tinside", "nb\u00a0sp", "a  b", "images/boot ;1.iso", "L" + "o" * 3000 + "ng", "=", ":", "]x["]
+BOUNDARY_NAMES = ["a b", "k;x", "k#x", "a ;b", "a #b", "x y.img", "UP low", "k%", "nb\u00a0sp", "t\tab", "n" * 300]
+
+
+def uniq(xs):
+    return list(dict.fromkeys(xs))
+
+
+def bval(rng, normal, rate=0.15, exclude=""):
+    """a value from the normal pool, or (with probability `rate`) a boundary value free of the characters in `exclude`"""
+    if rng.random() < rate:
+        pool = [v for v in BOUNDARY_VALUES if not any(c in v for c in exclude)]
+        return rng.choice(pool)
+    return rng.choice(normal) if isinstance(normal, list) else normal
+
+
 TS_POOL = [1, 123456, -5, 2 ** 40, 2 ** 53, -(2 ** 53), 1417653911, 2 ** 31, 2 ** 32 + 1, 7]
 
 
@@ -332,8 +351,8 @@ def gen_variant(rng, vid, uid, typ, arch, depth, maxdepth, used):
     fields = rng.sample(PATH_FIELDS, rng.choice([0, 1, 2, 3, 4, 7]))
     if arch == "src" and rng.random() < 0.6:
         fields = [f for f in fields if f.startswith("source_")] or ["source_packages", "source_repository"]
-    v = {"key": vid, "id": vid, "uid": uid, "name": rng.choice([vid, "Name of %s" % vid, "n", "High Availability"]), "type": typ,
-         "paths": [[f, rng.choice(PATH_VALUES)] for f in PATH_FIELDS if f in fields], "variants": []}
+    v = {"key": vid, "id": vid, "uid": uid, "name": bval(rng, [vid, "Name of %s" % vid, "n", "High Availability"]), "type": typ,
+         "paths": [[f, bval(rng, PATH_VALUES)] for f in PATH_FIELDS if f in fields], "variants": []}
     if depth < maxdepth:
         for cid in rng.sample(KID_IDS, rng.choice([0, 0, 1, 2, 3])):
             cuid = uid + "-" + cid
@@ -352,9 +371,10 @@ def gen(rng, tier="quick", float_ts=False, dashed_by_id=0.0):
     layered = rng.random() < 0.3
     version = rng.choice(VERSIONS)
     spec = {"header_version": "0.0",
-            "release": {"name": rng.choice(NAMES), "short": rng.choice(SHORTS), "version": version},
+            "release": {"name": bval(rng, NAMES), "short": bval(rng, SHORTS), "version": version},
             "is_layered": layered,
-            "base_product": {"name": rng.choice(NAMES), "short": "B", "version": rng.choice(["7", "Beta", "21.1"])} if (layered or rng.random() < 0.1) else None}
+            "base_product": {"name": bval(rng, NAMES), "short": bval(rng, ["B", "BP"]), "version": rng.choice(["7", "Beta", "21.1", "Beta ;2"])}
+            if (layered or rng.random() < 0.1) else None}
     plats = set(rng.sample(PLATFORMS, rng.randint(0, 3)))
     if rng.random() < 0.7:
         plats.add(arch)
@@ -389,14 +409,15 @@ def gen(rng, tier="quick", float_ts=False, dashed_by_id=0.0):
     images = []
     for p in sorted(plats):
         if rng.random() < 0.6:
-            names = rng.sample(IMAGE_NAMES, rng.randint(0, 4))
-            images.append([p, [[k, "images/%s/%s" % (p, k)] for k in names]])
+            names = rng.sample(uniq(IMAGE_NAMES + (BOUNDARY_NAMES if rng.random() < 0.3 else [])), rng.randint(0, 4))
+            images.append([p, [[k, bval(rng, "images/%s/%s" % (p, k))] for k in names]])
     rng.shuffle(images)
     checks = []
-    for p in rng.sample(CHECKSUM_PATHS, rng.choice([0, 0, 1, 2, 3])):
-        checks.append([p, rng.choice(["sha256", "md5", "sha1", "sha512", "SHA256"]), "%x" % rng.getrandbits(rng.choice([64, 128, 160, 256]))])
-    stage2 = {"mainimage": "LiveOS/squashfs.img" if rng.random() < 0.5 else rng.choice([None, None, ""]),
-              "instimage": "images/install.img" if rng.random() < 0.2 else None}
+    for p in rng.sample(uniq(CHECKSUM_PATHS + (BOUNDARY_NAMES if rng.random() < 0.3 else [])), rng.choice([0, 0, 1, 2, 3])):
+        checks.append([p, bval(rng, ["sha256", "md5", "sha1", "sha512", "SHA256"], rate=0.05, exclude=":"),
+                       bval(rng, "%x" % rng.getrandbits(rng.choice([64, 128, 160, 256])), exclude=":")])
+    stage2 = {"mainimage": bval(rng, "LiveOS/squashfs.img") if rng.random() < 0.5 else rng.choice([None, None, ""]),
+              "instimage": bval(rng, "images/install.img") if rng.random() < 0.2 else None}
     media = {"discnum": None, "totaldiscs": None}
     if rng.random() < 0.4:
         tot = rng.randint(1, 4)
